@@ -79,6 +79,17 @@ def operandOf (j : Json) (k : String) : Except String Operand :=
   | .ok (.num n) => if n.exponent = 0 ∧ n.mantissa ≥ 0 then .ok (.ref n.mantissa.toNat) else .error s!"bad operand {k}"
   | _ => .error s!"bad operand {k}"
 
+/-- `{"s": [cat, unit|null]}` or `{"d": [[cat, unit, exp, frozen], …]}` -/
+def initArgOf (j : Json) : Except String InitArg :=
+  match optField j "a" with
+  | none => .error "missing init argument"
+  | some v =>
+    match optField v "s", optField v "d" with
+    | some (.arr #[c, .null]), _ => do pure (.simple (← symOf c) none)
+    | some (.arr #[c, u]), _ => do pure (.simple (← symOf c) (some (← symOf u)))
+    | _, some (.arr a) => do pure (.derived (← itemsOf a))
+    | _, _ => .error "bad init argument"
+
 def parseOp (j : Json) : Except String Op := do
   let k ← getStr j "k"
   match k with
@@ -92,6 +103,7 @@ def parseOp (j : Json) : Except String Op := do
   | "withunit" => pure (.withunit (← natField j "q") (← getSym j "u"))
   | "same" => pure (.same (← operandOf j "a") (← operandOf j "b"))
   | "new" => pure (.new (← getBool j "div") (← operandOf j "a") (← operandOf j "b"))
+  | "reinit" => pure (.reinit (← natField j "q") (← initArgOf j) (← optSym j "cap"))
   | _ => throw s!"unknown op kind {k}"
 
 def optSymJ : Option Sym → Json
